@@ -22,8 +22,9 @@ pub struct Case {
 
 fn strategy() -> BoxedStrategy<Case> {
   let cfg = GenCfg::positional();
-  (text(true, 14), abs_map(cfg))
-    .prop_map(move |(t, am)| {
+  (text(true, 14), abs_map(cfg), any::<bool>())
+    .prop_map(move |(t, am, dups)| {
+      let am = if dups { am.with_dups() } else { am };
       let map = concretize_map(&t, &am, true);
       Case { text: t, map }
     })
@@ -78,7 +79,7 @@ impl Prop for C08 {
   const ID: &'static str = "C08";
   fn rule(&self) -> String {
     "ASCII text T (0-14 tokens) and a consistent map M (0-8 sorted segments on char positions of T or the end \
-     position, 1-/4-/5-field, 1-3 sources, 0-3 names, contents absent/generic/identity, sourceRoot none/''/'rt'/'rt/'); \
+     position, now and then a second segment at the same position so that the first has zero extent, 1-/4-/5-field, 1-3 sources, 0-3 names, contents absent/generic/identity, sourceRoot none/''/'rt'/'rt/'); \
      the same (T, M) is served by SourceMapSource and by a user-defined Source calling stream_chunks_default, with \
      columns x final_source in {t,f}^2, and through map() of ConcatSource[sms, RawSource('')]; every byte is compared \
      with lookup(M) computed on the generated segment list. Non-trivial: M has >=2 segments on one line or a line \
@@ -165,6 +166,7 @@ impl Prop for C08 {
           .class(gap, "gap line between mapped lines")
           .class(m.segs.iter().any(|s| (s.line, s.col) == end), "zero-width segment at the end of the text")
           .class(m.segs.iter().any(|s| s.orig.is_none()), "1-field (unmapped) segment")
+          .class(m.segs.windows(2).any(|w| (w[0].line, w[0].col) == (w[1].line, w[1].col)), "two segments at one position (the first has zero extent)")
           .class(m.root.as_deref().is_some_and(|r| !r.is_empty()), "non-empty sourceRoot")
           .class(m.contents.is_empty(), "no sourcesContent"),
       )
